@@ -1,6 +1,7 @@
 """Per-harness options (solver schedule, axiom groups, stretch obligations, fixed validation vectors)."""
 OPTS = {
     'C02': {},
+    'C10': {'*': {'pi_symbolic': True}},
     'C09': {'c09_quaternion': {'feas_timeout': 1}, 'c09_decomposed_quat_rh': {'feas_timeout': 1}, 'c09_decomposed_quat_lh': {'feas_timeout': 1}},
     'C11': {
         'c11_angle1': {'pi_symbolic': True}, 'c11_angle2': {'pi_symbolic': True}, 'c11_angle3': {'pi_symbolic': True},
